@@ -294,17 +294,19 @@ Proof.
      [ match goal with
        | |- below idx c (dec_brk ?X) =>
            eapply below_trans; [apply below_of_ext; exact B1|];
-           eapply below_trans; [apply below_step_cell|apply below_of_ext, ext_of_quiet, q_dec_brk]
+           eapply below_trans; [apply below_step_cell|];
+           eapply below_trans; [apply below_of_ext, ext_of_quiet, q_ctx_set|apply below_of_ext, ext_of_quiet, q_dec_brk]
        | |- below idx c (cloop_run fr k n idx v' lim ?X) =>
            eapply below_trans; [apply below_of_ext; exact B1|];
-           eapply below_trans; [apply below_step_cell|apply IH]
+           eapply below_trans; [apply below_step_cell|];
+           eapply below_trans; [apply below_of_ext, ext_of_quiet, q_ctx_set|apply IH]
        end
      | match goal with
        | |- below idx c (dec_brk ?X) =>
            apply below_of_ext; eapply ext_trans; [exact B1|];
-           apply ext_of_quiet; eapply quiet_trans; [apply q_w_cerr|apply q_dec_brk]
+           apply ext_of_quiet; eapply quiet_trans; [apply q_w_cerr|eapply quiet_trans; [apply q_ctx_set|apply q_dec_brk]]
        | |- below idx c (cloop_run fr k n idx v lim ?X) =>
-           eapply below_trans; [apply below_of_ext; eapply ext_trans; [exact B1|apply ext_of_quiet, q_w_cerr]|apply IH]
+           eapply below_trans; [apply below_of_ext; eapply ext_trans; [exact B1|apply ext_of_quiet; eapply quiet_trans; [apply q_w_cerr|apply q_ctx_set]]|apply IH]
        end ]).
 Qed.
 
